@@ -364,7 +364,12 @@ def do_find(router, path):
         return ('raised', type(ex).__name__, str(ex)[:100])
     if r is None:
         return None
-    return ('hit', r[0], freeze(r[2]), r[3], r[1].get('GET'))
+    out = ('hit', r[0], freeze(r[2]), r[3], r[1].get('GET'))
+    # the params dict belongs to this lookup's caller (App hands it to process_resource middleware,
+    # which may add to it): use it, so that a later lookup that sees this one's dict is noticed
+    if isinstance(r[2], dict):
+        r[2]['added-by-the-caller'] = path
+    return out
 
 
 def brief(r):
